@@ -466,6 +466,12 @@ def run_case(lab, mon, case, names, sample=False, real_files=None):
     real = []
     tmpdir = tempfile.mkdtemp(prefix="bvm-fmt-") if real_files is not None else None
 
+    def outpath(i):
+        # every second output file below directories that do not exist yet, several levels deep (-o build/reports/json/out.txt)
+        if i % 2:
+            return os.path.join(tmpdir, "build", "reports", "kind%d" % i, "out%d.txt" % i)
+        return os.path.join(tmpdir, "out%d.txt" % i)
+
     def formatters(config, st):
         recs[:] = make_formatters(names, config, streams) + [Recorder("recording")]
         if real_files is None:
@@ -473,8 +479,16 @@ def run_case(lab, mon, case, names, sample=False, real_files=None):
         from behave.formatter._registry import make_formatters as real_make_formatters
         from behave.formatter.base import StreamOpener
         config.format = list(names)
-        openers[:] = [StreamOpener(filename=os.path.join(tmpdir, "out%d.txt" % i)) for i in range(real_files)]
-        real[:] = real_make_formatters(config, openers)
+        openers[:] = [StreamOpener(filename=outpath(i)) for i in range(real_files)]
+        try:
+            real[:] = real_make_formatters(config, openers)
+        except Exception as ex:
+            # the factory must be able to open every output file it was given (missing directories are created)
+            mon.check("factory.opens_every_output_file", False,
+                      lambda: dict(formats=list(names), output_files=[os.path.relpath(outpath(i), tmpdir) for i in range(real_files)], error=repr(ex)))
+            real[:] = []
+            return recs
+        mon.check("factory.opens_every_output_file", True)
         return real + recs
     openers = []
     streams2 = []
@@ -485,9 +499,11 @@ def run_case(lab, mon, case, names, sample=False, real_files=None):
         # a second run in the same process with the SAME Configuration and the same output openers (Runner(config).run() twice)
         from behave.formatter._registry import make_formatters as real_make_formatters
         from behave.model import reset_model
+        if real_files and not real:
+            return          # the factory already failed for run 1 (reported there)
         for i in range(real_files):                 # what run 1 wrote, before run 2 writes the files again
             try:
-                with open(os.path.join(tmpdir, "out%d.txt" % i), encoding="utf-8") as fh:
+                with open(outpath(i), encoding="utf-8") as fh:
                     first_files[i] = fh.read()
             except OSError:
                 first_files[i] = None
@@ -507,7 +523,7 @@ def run_case(lab, mon, case, names, sample=False, real_files=None):
             mon.check("factory.second_run_with_same_configuration", "error" not in second, lambda: W2(error=second.get("error")))
             if "error" not in second:
                 for i in range(real_files):
-                    path = os.path.join(tmpdir, "out%d.txt" % i)
+                    path = outpath(i)
                     try:
                         with open(path, encoding="utf-8") as fh:
                             content = fh.read()
@@ -521,7 +537,7 @@ def run_case(lab, mon, case, names, sample=False, real_files=None):
             mon.seen("real_factory_files_of_formatters", "%d/%d" % (real_files, len(names)))
             W0 = lambda **kw: RB.witness(case, formatters=names, output_files=real_files, **kw)
             for i in range(real_files):
-                path = os.path.join(tmpdir, "out%d.txt" % i)
+                path = outpath(i)
                 if i in first_files:
                     content = first_files[i]
                 else:
